@@ -1,6 +1,7 @@
 (* Non-vacuity: concrete non-trivial schedules and states meeting the hypotheses of the C13 theorems. *)
 Require Import List Arith Lia.
-From Dasp Require Import Base.Res Signal.Bus Signal.BusSpec Signal.BusProofs Signal.BusHistProofs.
+From Dasp Require Import Base.Res Signal.Bus Signal.BusSpec Signal.BusProofs Signal.BusHistProofs
+  Signal.BusExh Signal.BusExhProofs.
 Import ListNotations.
 
 Definition exf (n : nat) : nat := 100 + n.
@@ -67,3 +68,19 @@ Example ex_panic_unknown : run exf [OSend; ONext 5] init = Panic PExpect.
 Proof. vm_compute. reflexivity. Qed.
 Example ex_not_sched_ok : ~ sched_ok 0 [] [OSend; OSend; ODrop 0; ONext 0].
 Proof. cbv. intros [[H|[]] _]. discriminate H. Qed.
+
+(* a finite source of two frames (then equilibrium 0), exhausted once two frames are pulled; output 0
+   pulls past the end while output 1 lags, the Bus handle is dropped in between: the equilibrium frame
+   is queued for the laggard, output 0 reports exhaustion although its sibling lags, output 1 only
+   after it has received everything *)
+Definition exfin (n : nat) : nat := if n <? 2 then 100 + n else 0.
+Definition exx (n : nat) : bool := 2 <=? n.
+Example ex_exhaustion :
+  xrun exfin exx [XOp OSend; XOp OSend; XOp (ONext 0); XOp (ONext 0); XExhausted 0; XDropBus;
+                  XOp (ONext 0); XExhausted 0; XExhausted 1;
+                  XOp (ONext 1); XOp (ONext 1); XOp (ONext 1); XExhausted 1] init =
+  Ok ({| pulled := 3; buf := []; fr := [(1, 0); (0, 0)]; nk := 2 |},
+      [XEv (ESend 0 0); XEv (ESend 1 0); XEv (EFrame 0 100); XEv (EFrame 0 101); XExh 0 true; XBusDropped;
+       XEv (EFrame 0 0); XExh 0 true; XExh 1 false;
+       XEv (EFrame 1 100); XEv (EFrame 1 101); XEv (EFrame 1 0); XExh 1 true]).
+Proof. vm_compute. reflexivity. Qed.
